@@ -53,7 +53,7 @@ theorem objHasBadBB_of (h : Heap K) (o : Nat) (A : Obj K) (m : HTree K) (hA : h.
 
 /-- the only store `Empirical1D` construction makes into an existing cell -/
 theorem newEmpirical_writes (fx : Fixes) (h : Heap K) (kind : Kind) (x y : Nat) (xc yc : List K)
-    (keep : Bool) (md : Option Nat) (f0 : Bool) (zi : Option (K × ZType)) :
+    (keep : Bool) (md : Option Nat) (f0 : FillArg K) (zi : Option (K × ZType)) :
     ∀ l ∈ writeSet (newEmpirical fx h kind x y xc yc keep md f0 zi).1,
       l ∈ hidden fx h (.newEmpirical kind x y xc yc keep md f0 zi) := by
   intro l hl
